@@ -94,6 +94,11 @@ CLAIMED = {
   note="Trusted: Go type checker, go/ssa, the explorer's branch history.",
   technique="path-sensitive SSA typestate/ordering analysis of Close (test-and-set, ownership transfer under mutex, must-reach) + CFG escape analysis of the drain loop + guard check on client-table updates, custom checker",
   ref="DESIGN.md section 4 C18"),
+ "C19": dict(
+  text="Static analysis of the client library's wire conventions, the structural part the primitives' guarantees rest on: every client.Lock literal built by Lock, RLock, RWLock, Semaphore, MaxConcurrentFlow, PriorityLock and Event (31 literals, helper constructors inlined) carries the count / re-entrancy / flag values of its primitive (value origin against a table taken from the protocol's meaning: exclusive 0/0, RLock 0xff, readers 0xffff, n-1, priority flag, event-mode counts and wait-when-unlocked); constructors and setters store n-1 exactly for n > 0 and keep the all-ones sentinels (path facts); the 20+ Lock methods pass their own id/timeout/expiry/count/rcount in the right argument position and doLock/doUnlock/Send* fill the LOCK/UNLOCK frame from the matching quantity (same-typed swaps compile); facades forward same-named quantities; the request table is registered before the write, cleaned on failing exits and a reply is delivered once to the waiter under its own RequestId; server reply buffer and client request buffer are only touched under the connection mutex. The guarantees themselves under concurrent schedules, pipelining and reconnects need a running server and are not decided, hence 'other'.",
+  note="Trusted: Go type checker, go/ssa, the explorer's facts; the convention table in internal/rules/c19.go (derived from the server's admission rule: a key admits Count+1 holders, a hold Rcount+1 re-entries).",
+  technique="value-origin analysis of struct literals and call arguments over SSA (convention table, sibling argument-position agreement) + path-sensitive n-1 normalisation facts + ordering/typestate of the request table + lock-held check on scratch buffers, custom checker",
+  ref="DESIGN.md section 4 C19"),
 }
 
 NA = {
